@@ -1791,6 +1791,17 @@ impl<'a, E: quiver_core::effects::Effect> Compiler<'a, E> {
             n.disable();
         }
 
+        // A match on some *other* value (e.g. an earlier match's verdict, a literal) that can fail
+        // makes the branch fail although the earlier pattern matched: the narrowing recorded for
+        // that earlier pattern can then no longer be used for the complement.
+        if !pattern::always_matches(&binding_sets)
+            && let Some(n) = narrowing.as_deref_mut()
+            && n.active_provenance()
+                .is_some_and(|active| !same_or_field_of(&value_provenance, active))
+        {
+            n.disable();
+        }
+
         // If result type is never (empty union), pattern won't match - skip pattern matching code
         if self.is_never(result_type) {
             self.codegen.add_instruction(Instruction::Pop);
@@ -2588,14 +2599,22 @@ impl<'a, E: quiver_core::effects::Effect> Compiler<'a, E> {
 
         let terms: Vec<_> = chain.terms.into_iter().collect();
         let last_index = terms.len().saturating_sub(1);
+        let mut prev_was_match = false;
         for (i, term) in terms.iter().enumerate() {
             let term_expected = self.expected_for_term(&terms, i, last_index, expected);
             let is_match_term = matches!(term, ast::Term::Match(_));
+            // What flows out of a match term is its verdict, not the matched value: the term
+            // that follows must not see the matched value's provenance (see `compile_sequence`).
+            let flowing_prov = if prev_was_match {
+                Provenance::Unknown
+            } else {
+                current_prov
+            };
             let (term_type, term_prov) = self.compile_term(
                 term.clone(),
                 FlowingValue {
                     ty: current_type,
-                    provenance: current_prov,
+                    provenance: flowing_prov,
                 },
                 on_no_match,
                 ripple_context,
@@ -2619,6 +2638,7 @@ impl<'a, E: quiver_core::effects::Effect> Compiler<'a, E> {
             }
             current_type = Some(term_type);
             current_prov = term_prov;
+            prev_was_match = is_match_term;
         }
 
         let result_type = current_type.ok_or_else(|| Error::InternalError {
@@ -2634,10 +2654,15 @@ impl<'a, E: quiver_core::effects::Effect> Compiler<'a, E> {
             if let [term] = terms.as_slice() {
                 self.record_destructured_import(term, &pattern);
             }
+            let matched_prov = if prev_was_match {
+                Provenance::Unknown
+            } else {
+                current_prov.clone()
+            };
             let ty = self.compile_match(
                 pattern,
                 result_type,
-                current_prov.clone(),
+                matched_prov,
                 on_no_match,
                 true, // Direct assignment returns Ok
                 narrowing,
@@ -4681,6 +4706,19 @@ impl<'a, E: quiver_core::effects::Effect> Compiler<'a, E> {
         };
         self.compile_accessor(last_type, accessors, target, base_prov)
     }
+}
+
+/// Whether `provenance` is `root` itself or a field path below it (a narrowing recorded for a field
+/// of a value and a later match on the value itself, or the reverse, concern the same value).
+fn same_or_field_of(provenance: &Provenance, root: &Provenance) -> bool {
+    fn below(p: &Provenance, root: &Provenance) -> bool {
+        p == root
+            || match p {
+                Provenance::Field(parent, _) => below(parent, root),
+                _ => false,
+            }
+    }
+    below(provenance, root) || below(root, provenance)
 }
 
 /// Whether a provenance is (a field path of) the named variable.
